@@ -366,8 +366,13 @@ def redirects(prog, an, rep):
         if isinstance(by, ast.Name) else []
     # ... the parent branch of every branch that holds the commit
     ok = False
+    pmap = c18.parent_mapping(prog, an, h)
     for v in cand:
         over = _maps(v, 'get_parent_branch')
+        if not over and pmap is not None and any(
+                isinstance(x, ast.IfExp) and
+                'feature_branch' in src(x) for x in ast.walk(v)):
+            over = pmap[4]      # the mapping written out in place
         if not over:
             continue
         for w in [x for _, x in stores_to(h, over) if x is not None]:
